@@ -721,3 +721,59 @@ Theorem C02_bridge_settings_partial : forall c,
   is_set s_allow_missing_pos (pre_build c) = is_set s_allow_missing_pos c.
 Proof. exact bridge_settings. Qed.
 Print Assumptions C02_bridge_settings_partial.
+
+(** ---------- round 4: definitions WITH short flag-subcommands (class [flag_sub_class], see Properties/C01.v) ----------
+    The index discipline and "no value is invented" are instances of the same traversal as C01's totality theorem;
+    ParseProofs/FsInvariant.v / FsTotality.v generalise that traversal over the resume state of short
+    flag-subcommands, ParseProofs/FsIndex.v instantiates it.  A level entered by re-reading a cluster ([idx_entry],
+    second alternative: skip = 1, the cluster first in its token list) starts with an empty matcher and CONTINUES the
+    parent's index counter. *)
+From ClapModel Require Import ParseProofs.FlagSubClass ParseProofs.FsInvariant ParseProofs.FsTotality ParseProofs.FsIndex.
+
+Theorem C02_level_indices_flag_subs : forall fuel c toks st0 st,
+  tree_ok_fs fuel c -> idx_entry c toks st0 -> get_matches_with fuel c toks st0 = ROk st ->
+  NoDup (map fst (mt_args (mt st)))
+  /\ NoDup (all_indices (mt_args (mt st)))
+  /\ Forall (fun i => i <= cur_idx st) (all_indices (mt_args (mt st)))
+  /\ Forall (fun p => StronglySorted N.lt (m_indices (snd p))) (mt_args (mt st)).
+Proof. exact level_indices_fs. Qed.
+Print Assumptions C02_level_indices_flag_subs.
+
+(** the root level, for every valid definition of the class and every token list *)
+Theorem C02_indices_unique_increasing_flag_subs : forall c0 toks st,
+  flag_sub_class c0 = true -> valid c0 = true ->
+  get_matches_with (S (S (depth (build_self c0)))) (build_self c0) toks ps_new = ROk st ->
+  NoDup (map fst (mt_args (mt st)))
+  /\ NoDup (all_indices (mt_args (mt st)))
+  /\ Forall (fun i => i <= cur_idx st) (all_indices (mt_args (mt st)))
+  /\ Forall (fun p => StronglySorted N.lt (m_indices (snd p))) (mt_args (mt st)).
+Proof. exact root_indices_fs. Qed.
+Print Assumptions C02_indices_unique_increasing_flag_subs.
+
+Theorem C02_values_have_origin_flag_subs : forall c0 toks st,
+  flag_sub_class c0 = true -> valid c0 = true ->
+  get_matches_with (S (S (depth (build_self c0)))) (build_self c0) toks ps_new = ROk st ->
+  forall i m, In (i, m) (mt_args (mt st)) -> (exists a, find_arg (build_self c0) i = Some a) ->
+  Forall (Forall (origin (build_self c0) toks)) (m_raw m).
+Proof. exact root_provenance_fs. Qed.
+Print Assumptions C02_values_have_origin_flag_subs.
+
+Theorem C02_level_values_have_origin_flag_subs : forall fuel c toks st0 st,
+  tree_ok_fs fuel c -> prov_entry c toks st0 ->
+  get_matches_with fuel c toks st0 = ROk st ->
+  forall i m, In (i, m) (mt_args (mt st)) -> (exists a, find_arg c i = Some a) ->
+  Forall (Forall (origin c toks)) (m_raw m).
+Proof. exact level_provenance_fs. Qed.
+Print Assumptions C02_level_values_have_origin_flag_subs.
+
+(** Non-vacuity: `p -a -Sx v` on [candidate_cmd] (root flag a; subcommand s with short flag S, flags x, w, positional v):
+    the root reports index 1 for `-a` and the subcommand; the level `s`, entered by re-reading `-Sx`, reports 3 for
+    `-x`, 4 for `v` and 5 for the default of `-w`: the numbering continues across the re-read cluster. *)
+Theorem C02_flag_subs_nonvacuous :
+  flag_sub_class candidate_cmd = true /\ valid candidate_cmd = true
+  /\ (exists st, Relations.run_level candidate_cmd [[45; 97]; [45; 83; 120]; [118]] = ROk st
+                 /\ all_indices (mt_args (mt st)) = [1] /\ cur_idx st = 2
+                 /\ exists sm, mt_sub (mt st) = Some ([115], sm)
+                               /\ map (fun p => (fst p, m_indices (snd p))) (ms_args sm) = [([120], [3]); ([118], [4]); ([119], [5])]).
+Proof. exact fs_index_example. Qed.
+Print Assumptions C02_flag_subs_nonvacuous.
